@@ -538,11 +538,17 @@ func (e *Env) call(n *ECall) EVal {
 	case "fresh":
 		// allocated by this call / function: above the old allocation mark
 		x := e.eval(n.Args[0])
+		if x.T.Sort == SSlice {
+			x.T = SArr(x.T) // a fresh slice has a fresh backing array
+		}
 		c := e.child()
 		c.inOld = true
 		return EVal{T: Lt(c.heap("$brk", SInt), x.T), Ty: boolT}
 	case "allocated":
 		x := e.eval(n.Args[0])
+		if x.T.Sort == SSlice {
+			x.T = SArr(x.T)
+		}
 		return EVal{T: And(Lt(TZero, x.T), Le(x.T, e.heap("$brk", SInt))), Ty: boolT}
 	case "seqeq":
 		// two slices hold the same sequence
@@ -566,6 +572,17 @@ func (e *Env) call(n *ECall) EVal {
 		}
 		t := e.s.P.resolveType(e.pkg, tstr)
 		return EVal{T: IntLit(int64(e.s.P.tagOf(t))), Ty: intT}
+	case "substr":
+		x, lo, hi := e.eval(n.Args[0]), e.eval(n.Args[1]), e.eval(n.Args[2])
+		e.s.D.Fun("substr", []Sort{SStr, SInt, SInt}, SStr)
+		return EVal{T: mk(SStr, "substr", x.T, lo.T, hi.T), Ty: types.Typ[types.String]}
+	case "iface":
+		// iface(p): the interface value holding pointer p with its static type as dynamic type
+		x := e.eval(n.Args[0])
+		if x.Ty == nil {
+			fatalf("%s: iface() of an untyped value", e.s.name)
+		}
+		return EVal{T: MkIface(IntLit(int64(e.s.P.tagOf(x.Ty))), e.s.box(x.T)), Ty: types.NewInterfaceType(nil, nil)}
 	case "unboxstr":
 		x := e.eval(n.Args[0])
 		return EVal{T: mk(SStr, "unbox_Str", IVal(x.T)), Ty: types.Typ[types.String]}
